@@ -237,6 +237,22 @@ def tie_fit_emit(ctx, info, val, doc, f, t, sl, reqs, metas):
         replay["step"] = step.to_json()
         prob = open_payload_problem(val, s_) if slice_wf(s_) else "not well-formed"
         replay["payload"] = prob
+        if isinstance(step, ReplaceAroundStep):
+            # fit_around_shape / fit_around_gap_valid (Props/C11.lean): every replace-around answer starts at `from`, its gap is
+            # [to, to.end()) — a closed slice of valid nodes on a valid document —, the structure flag is not set
+            rt_ = doc.resolve(t)
+            gap_ = doc.slice(step.gap_from, step.gap_to)
+            replay["aroundShape"] = (not step.structure and step.from_ == f and step.gap_from == t and step.gap_to == rt_.end()
+                                     and gap_.open_start == 0 and gap_.open_end == 0)
+            replay["aroundGap"] = open_payload_problem(val, gap_)
+        if isinstance(step, ReplaceAroundStep) and not sl.content.child_count:
+            # delete_around_is_move / delete_emits_payloadValid (Props/C11.lean): a deletion's replace-around answer has
+            # insert = 0, gap [to, to.end()), no structure flag; the slice with the gap content in place is a valid payload
+            rt_ = doc.resolve(t)
+            replay["aroundMove"] = (step.insert == 0 and not step.structure and step.gap_from == t and step.gap_to == rt_.end())
+            st2, ins_ = outcome(lambda: s_.insert_at(step.insert, doc.slice(step.gap_from, step.gap_to).content))
+            replay["aroundPayload"] = ("insert_at " + st2) if st2 != "ok" else (
+                None if ins_ is None else (open_payload_problem(val, ins_) if slice_wf(ins_) else "not well-formed"))
         ctx.count("fit emit: payload of the real step " + ("valid" if prob is None else "INVALID"))
     reqs.append({"op": "fitEmit", "s": info.lean_id, "doc": info.node(doc), "from": f, "to": t, "slice": info.slice(sl)})
     metas.append(("fitEmit", replay, exp))
@@ -292,6 +308,42 @@ def check_fit_emit(ctx, replay, out):
             ctx.count("fit emit: hypotheses of delete_emits_valid_payload hold")
             if replay.get("payload") is not None:
                 ctx.mismatch("fitEmit:delete-payload-invalid", replay, None, replay.get("payload"))
+            if "aroundMove" in replay:
+                ctx.count("fit emit: hypotheses of delete_emits_payloadValid hold on a replace-around answer")
+                if replay["aroundMove"] is not True:
+                    ctx.mismatch("fitEmit:delete-around-not-a-move (delete_around_is_move)", replay, True, replay["aroundMove"])
+                if replay.get("aroundPayload") is not None:
+                    ctx.mismatch("fitEmit:delete-around-payload-invalid", replay, None, replay.get("aroundPayload"))
+        # insertInline_emits_valid_payload (Props/C11.lean): schema guards detB/fillersOKB/wrapOKB/labelsOKB/leafOkB/textStableC/
+        # closableB, valid document with creatable element types, closed slice of valid leaf nodes => the payload of the
+        # emitted step is valid; checked on the real step with the independent validator
+        if cls == "inline":
+            if rel.get("hyp") and rel.get("labels") and rel.get("leafOk") and rel.get("textStable") and rel.get("closable") \
+                    and rel.get("slClosedValid"):
+                ctx.count("fit emit: hypotheses of insertInline_emits_valid_payload hold (-> %s)" % g["kind"])
+                if replay.get("payload") is not None:
+                    ctx.mismatch("fitEmit:insertInline-payload-invalid", replay, None, replay.get("payload"))
+            else:
+                ctx.count("fit emit: hypotheses of insertInline_emits_valid_payload fail (closableB=%s slClosedValid=%s)"
+                          % (rel.get("closable"), rel.get("slClosedValid")))
+        # fit_emits_valid_payload_of_inv (Props/C11.lean): schema guards, valid request slice, creatable element types, and
+        # the validity invariant (`FitState.validB`, in step) at the end of the loop => payload valid, for every request
+        if rel.get("endInv") is not None:
+            ctx.count("fit emit: validity invariant at the end of the loop (%s slice%s): %s"
+                      % (cls, "" if rel.get("slValid") else ", request slice not a valid payload", rel["endInv"]))
+            if rel["endInv"] and rel.get("hyp") and rel.get("leafOk") and rel.get("textStable") and rel.get("closable") \
+                    and rel.get("slValid"):
+                ctx.count("fit emit: hypotheses of fit_emits_valid_payload_of_inv hold (%s slice)" % cls)
+                if replay.get("payload") is not None:
+                    ctx.mismatch("fitEmit:valid-invariant-but-payload-invalid", replay, None, replay.get("payload"))
+        if "aroundShape" in replay:
+            ctx.count("fit emit: replace-around answer, shape as fit_around_shape: %s" % replay["aroundShape"])
+            if replay["aroundShape"] is not True:
+                ctx.mismatch("fitEmit:around-shape (fit_around_shape)", replay, True, replay["aroundShape"])
+            if rel.get("hyp") and replay.get("aroundGap") is not None:
+                ctx.mismatch("fitEmit:around-gap-invalid (fit_around_gap_valid)", replay, None, replay.get("aroundGap"))
+        if rel.get("validRun") is not None:
+            ctx.count("fit emit: validity invariant after every iteration (%s slice): %s" % (cls, rel["validRun"]))
         if rel.get("inStep") is not None:
             ctx.count("fit emit: in-step invariant over the loop (%s slice): %s" % (cls, rel["inStep"]))
             if rel["inStep"] and g.get("wf") is not True:
